@@ -22,5 +22,6 @@ Definition run_c18 (l : list Z) : list Z :=
   | 7 :: _ => [-9]
   | 8 :: _ => [-9]
   | 9 :: _ => [-9]
+  | 10 :: _ => [-9]
   | _ => [-3]
   end.
